@@ -33,7 +33,7 @@ MANIFEST = {
                  'reference evaluation of status/body/hook order/close count',
     'text': 'Every program of the grammar is served for GET, HEAD and POST (plus 404 / 405 outcomes, failing before-hooks, '
             'custom error handlers, wsgi.file_wrapper present or absent); each recorded call is validated against PEP 3333 and '
-            'the reference evaluation of the program.',
+            'the reference evaluation of the program. Short request sequences are served by a server that edits the header lists it is given (as wsgiref does), including last-resort error pages; debug-mode configurations are included.',
     'note': 'Bounds: item lists <=3, nesting <=2, statuses {200,201,204,304,100,404,500}. Trusted: the validator in vf/wsgi.py.',
 }
 
